@@ -15,7 +15,8 @@ CONSTANTS
   ForeignMax = 2
   ExportOn = TRUE
   MaxOps = 4
-  SampleMod = 12
+  SampleMod = 40
+  ImportantMod = 4
 INIT MInit
 NEXT MNext
 VIEW view
